@@ -51,9 +51,15 @@ func Alphabet() []Sym {
 		{Name: "LogonGood", LogonClass: LogonGood, Type: "A", Build: good(0)},
 		{Name: "LogonGoodMinHb", LogonClass: LogonGood, Type: "A", Build: good(1)},
 		{Name: "LogonGoodMaxHb", LogonClass: LogonGood, Type: "A", Build: good(2)},
-		{Name: "LogonHbBelowMin", LogonClass: LogonHbLow, Type: "A", Build: func(p *Peer, lim [2]int) []byte { return p.Logon(lim[0]-1, "0", fixref.F(TUser, "user"), fixref.F(TPass, "pw")) }},
-		{Name: "LogonHbAboveMax", LogonClass: LogonHbHigh, Type: "A", Build: func(p *Peer, lim [2]int) []byte { return p.Logon(lim[1]+1, "0", fixref.F(TUser, "user"), fixref.F(TPass, "pw")) }},
-		{Name: "LogonBadMethod", LogonClass: LogonBadMethod, Type: "A", Build: func(p *Peer, lim [2]int) []byte { return p.Logon(mid(lim), "1", fixref.F(TUser, "user"), fixref.F(TPass, "pw")) }},
+		{Name: "LogonHbBelowMin", LogonClass: LogonHbLow, Type: "A", Build: func(p *Peer, lim [2]int) []byte {
+			return p.Logon(lim[0]-1, "0", fixref.F(TUser, "user"), fixref.F(TPass, "pw"))
+		}},
+		{Name: "LogonHbAboveMax", LogonClass: LogonHbHigh, Type: "A", Build: func(p *Peer, lim [2]int) []byte {
+			return p.Logon(lim[1]+1, "0", fixref.F(TUser, "user"), fixref.F(TPass, "pw"))
+		}},
+		{Name: "LogonBadMethod", LogonClass: LogonBadMethod, Type: "A", Build: func(p *Peer, lim [2]int) []byte {
+			return p.Logon(mid(lim), "1", fixref.F(TUser, "user"), fixref.F(TPass, "pw"))
+		}},
 		{Name: "LogonCredsRefused", LogonClass: LogonCredsRefused, Type: "A", Build: func(p *Peer, lim [2]int) []byte {
 			return p.Logon(mid(lim), "0", fixref.F(TUser, BadUser), fixref.F(TPass, "x"))
 		}},
